@@ -58,6 +58,7 @@ type Input struct {
 	CB    *CBCase    `json:"cb,omitempty"`
 	Ret   *RetCase   `json:"ret,omitempty"`
 	Hist  *HistCase  `json:"hist,omitempty"`
+	Shape *ShapeCase `json:"shape,omitempty"`
 }
 
 var numericTypes = []string{"int", "int8", "int16", "int32", "int64", "uint", "uint8", "uint16", "uint32", "uint64", "float32", "float64"}
